@@ -6,6 +6,9 @@ package main
 // driver prepares a state with many holders of liquid tokens, runs the real
 // handler several times on copy-on-write forks of that one state and compares
 // what was written: the same state and the same code must give the same result.
+// (Before the repair 1adc7a7 the appends were unsynchronised: measured on a
+// scratch copy with the repair reverted, 57 % of the single runs with 300 holders
+// lost at least one redeem message, 5 of 5 cases of 6 runs were detected.)
 
 import (
 	"encoding/hex"
@@ -148,7 +151,6 @@ func upRunCase(id string, in upInput) Case {
 		sort.Ints(rs)
 		c.OracleMsg = fmt.Sprintf("the v1.7.5 upgrade handler run %d times on the same state wrote %d different results (holders redeemed: min %d, max %d of %d): "+
 			"the outcome depends on goroutine scheduling", in.Trials, len(seen), rs[0], rs[len(rs)-1], in.Holders)
-		c.Class = "upgrade:v1.7.5-concurrent-append"
 	}
 	c.Nontrivial = in.Holders > 0 && obs.Err == ""
 	kb, _ := json.Marshal(in)
@@ -171,9 +173,9 @@ func upgrade175Driver(cfg Config, out *Out) error {
 		})
 	}
 	for i := 0; i < cfg.N; i++ {
-		in := upInput{Holders: []int{40, 150, 400}[i%3], Trials: 6}
+		in := upInput{Holders: 300, Trials: 6}
 		if cfg.Tier == "thorough" {
-			in.Trials = 20
+			in = upInput{Holders: []int{400, 150, 600}[i%3], Trials: 24}
 		}
 		out.Emit(upRunCase(fmt.Sprintf("s%d-%d", cfg.Seed, i), in))
 	}
